@@ -89,8 +89,10 @@ def _const_strs(e):
     return None
 
 
-def getter_semantics(rep, M, T, rid):
-    """constant-fold the three label getters over the 230 table values and compare with the reference labels"""
+def getter_semantics(rep, M, T, rid, values=True):
+    """constant-fold the three label getters over the 230 table values and compare with the reference labels.
+    values=False (presentation independence only): a label must be a function of the detected space-group type - the table row of the
+    detected number, the dataset's point-group symbol - whatever that function is; its agreement with the International Tables is not compared"""
     from .. import spgref
     SGI = T["SPACE_GROUP_INFO"]
     for name, key in (("get_crystal_system", "crystal_system"), ("get_point_group", None)):
@@ -102,7 +104,13 @@ def getter_semantics(rep, M, T, rid):
             ok = all(any(isinstance(x, ast.Subscript) and isinstance(x.slice, ast.Constant) and x.slice.value == key
                          for e in fl.slice(r.value, fl.node_of(r))["exprs"] for x in ast.walk(e)) for r in rets) and \
                 not any(isinstance(x, (ast.BinOp, ast.IfExp)) for r in rets for e in fl.slice(r.value, fl.node_of(r))["exprs"] for x in ast.walk(e))
-            if ok:
+            if not values:
+                src = any(isinstance(x, ast.Name) and x.id == "SPACE_GROUP_INFO" for r in rets for e in fl.slice(r.value, fl.node_of(r))["exprs"] for x in ast.walk(e))
+                if src:
+                    rep.ok(rid, f"{name} is computed from the SPACE_GROUP_INFO row of the detected space group")
+                else:
+                    rep.violation(rid, name, "is not computed from the table row of the detected space group", M.where(fq))
+            elif ok:
                 rep.ok(rid, f"{name} returns SPACE_GROUP_INFO[n][{key!r}] unmodified")
             else:
                 rep.violation(rid, name, f"does not return the tabulated {key!r} unmodified", M.where(fq))
@@ -114,6 +122,12 @@ def getter_semantics(rep, M, T, rid):
                 rep.violation(rid, name, "does not return dataset.pointgroup", M.where(fq))
     fq = SA + ".SymmetryAnalyzer.get_bravais_lattice"
     fn = M.func(fq)
+    if not values:
+        if any(isinstance(x, ast.Name) and x.id == "SPACE_GROUP_INFO" for x in ast.walk(fn)):
+            rep.ok(rid, "get_bravais_lattice is computed from the SPACE_GROUP_INFO row of the detected space group")
+        else:
+            rep.violation(rid, "get_bravais_lattice", "is not computed from the table row of the detected space group", M.where(fq))
+        return
     var = None
     for s2 in fn.body:
         if isinstance(s2, ast.Assign) and isinstance(s2.value, ast.Subscript) and isinstance(s2.value.slice, ast.Constant) and s2.value.slice.value == "bravais_lattice":
